@@ -6,6 +6,10 @@ What a contract can decide here is the Python bookkeeping of Assembler/_Streamer
                                                the (suffixed) name is taken; the created symbol carries the suffix iff temporary
   E  assembler:_Streamer._symbol_lookup / _resolve_symbol   local first, then the module's own symbol OBJECT; unknown -> UndefSymbolError
                                                unless allowed, then exactly one proxy-backed symbol recorded under the name
+  E  assembler:Assembler.finalize               frame condition over the whole configuration space of the constructor (6 keyword-only
+                                               parameters, 64 configurations) x 4 histories of use: no option changes, results share nothing
+  B  the same 64 configurations x probe texts (one per option) as the next text after 0 / 1 / 2 earlier assemble+finalize rounds:
+     equal to a fresh Assembler of the same configuration, and every option in force in every round
 That the bytes are what the text says, and which callbacks LLVM issues for a text, are properties of LLVM: ASSUMED; the B checks
 compare the real Assembler's result with an independent disassembler (capstone) and with the structure the statement demands:
   B  programs from a vocabulary (ordinary instruction, jmp / jcc / call to a label or an external symbol, indirect jump and call,
@@ -448,6 +452,202 @@ def assembler_reuse(tier, seed):
     return run
 
 
+# ------------------------------------------------------------------------------------------------ configuration x reuse (C12)
+# The statement quantifies over CONFIGURATIONS ("with trivially_unreachable on and off"): the configuration is given once, to the
+# constructor, and holds for every text the assembler is handed afterwards -- also for the texts that come after a finalize().
+# value domains of the keyword-only constructor parameters (the configuration space); "CB" stands for a caller-supplied callback
+CONFIG_DOMAINS = {
+    "diagnostic_callback": (None, "CB"),
+    "temp_symbol_suffix": (None, "_7"),
+    "trivially_unreachable": (False, True),
+    "allow_undef_symbols": (False, True),
+    "implicit_cfi_procedure": (False, True),
+    "ignore_symver_directives": (False, True),
+}
+
+
+def configurations():
+    names = list(CONFIG_DOMAINS)
+    for vals in itertools.product(*(CONFIG_DOMAINS[n] for n in names)):
+        yield dict(zip(names, vals))
+
+
+def configured_assembler(m, cfg):
+    """-> (assembler, the list the caller-supplied callback appends every diagnostic to (None when the default callback is used))"""
+    seen = None
+    kw = dict(cfg)
+    if kw.get("diagnostic_callback") == "CB":
+        seen = []
+
+        def cb(diag, seen=seen):
+            seen.append(diag)
+            return True         # "returning False ... will result in it being raised": this caller takes every diagnostic itself
+        kw["diagnostic_callback"] = cb
+    return Assembler(m, **kw), seen
+
+
+def finalize_keeps_configuration_harness(ctx):
+    """Assembler.finalize(): exhaustive case split over the whole configuration space of the constructor (every keyword-only parameter x
+    its value domain) x four histories of use.  Frame condition of finalize(): it hands out the accumulated output and NOTHING of the
+    configuration changes -- every option the constructor was given is, after any number of finalize() calls, the very value it was
+    before (and the value the caller passed); the result handed out next does not share its containers with one handed out before."""
+    import inspect
+    params = [p.name for p in inspect.signature(Assembler.__init__).parameters.values() if p.kind is inspect.Parameter.KEYWORD_ONLY]
+    ctx.prove("finalize/the-case-split-covers-every-constructor-option", z3.BoolVal(sorted(params) == sorted(CONFIG_DOMAINS)),
+              note="keyword-only parameters of Assembler.__init__: %s; enumerated: %s" % (sorted(params), sorted(CONFIG_DOMAINS)))
+    histories = (("finalize",), ("finalize", "finalize"), ("assemble", "finalize"), ("assemble", "finalize", "assemble", "finalize", "finalize"))
+    logging.getLogger("gtirb_rewriting").setLevel(logging.CRITICAL)
+    for cfg in configurations():
+        for hist in histories:
+            ir, m, modsym = mk_module(gtirb.Module.ISA.X64, gtirb.Module.FileFormat.ELF)
+            a, seen = configured_assembler(m, cfg)
+            before = {n: getattr(a._state, n) for n in list(CONFIG_DOMAINS) + ["target"]}
+            passed_ok = all(cfg[n] is None or n == "diagnostic_callback" or before[n] == cfg[n] for n in CONFIG_DOMAINS)
+            results = []
+            for step in hist:
+                if step == "assemble":
+                    a.assemble("nop\nLk:\nret")
+                else:
+                    results.append(a.finalize())
+            after = {n: getattr(a._state, n) for n in before}
+            changed = sorted(n for n in before if after[n] is not before[n] and after[n] != before[n])
+            ctx.prove("finalize/leaves-the-configuration-as-constructed", z3.BoolVal(passed_ok and not changed),
+                      note="configuration %s, history %s: changed %s" % ({k: v for k, v in cfg.items() if v not in (None, False)}, "+".join(hist),
+                                                                          ["%s: %r -> %r" % (n, before[n], after[n]) for n in changed if n != "target"] + [n for n in changed if n == "target"]))
+            shared = [(i, j) for i in range(len(results)) for j in range(i + 1, len(results))
+                      if results[i].cfg is results[j].cfg or results[i].sections is results[j].sections or results[i].proxies is results[j].proxies]
+            ctx.prove("finalize/results-handed-out-share-no-container", z3.BoolVal(not shared), note="history %s: results %s share cfg/sections/proxies" % ("+".join(hist), shared))
+    ctx.cover("enumerated")
+
+
+# probe texts: each one's result shows whether ONE option of the configuration is in force (what "in force" means is the constructor's
+# documentation, resp. for trivially_unreachable the statement's ".byte-only blocks nothing jumps to become data")
+CONFIG_PROBES = {
+    "trivially_unreachable": ".byte 1, 2\nLn:\nnop\nret",
+    "temp_symbol_suffix": ".Ltmp:\nnop\njmp .Ltmp",
+    "allow_undef_symbols": "call ghost\nret",
+    "implicit_cfi_procedure": ".cfi_undefined 3\nnop",
+    "ignore_symver_directives": ".symver modsym, modsym@VERS_1\nnop",
+    "(none)": "je Lq\nnop\nLq:\nret",
+}
+
+
+def configured_reuse(tier, seed):
+    """the configuration of an Assembler holds for EVERY text it assembles: after k >= 1 rounds of assemble + finalize the next text comes
+    out exactly as on a fresh Assembler constructed with the same configuration, and each option has its documented effect in every round"""
+    def run():
+        import warnings
+        logging.getLogger("gtirb_rewriting").setLevel(logging.CRITICAL)
+        br = BResult()
+        earlier = [("nop\nret",), (CONFIG_PROBES["trivially_unreachable"],), (CONFIG_PROBES["temp_symbol_suffix"],), ("jmp modsym", CONFIG_PROBES["(none)"])]
+        br.bound = ("x64 AT&T: all %d configurations of the constructor (%s) x %d probe texts (one per option + one plain) assembled as the NEXT text after "
+                    "k = 0 (fresh), 1 (3 different earlier texts) or 2 earlier assemble+finalize rounds on ONE Assembler" % (
+                        len(list(configurations())), " x ".join("%s in %s" % (n, list(d)) for n, d in CONFIG_DOMAINS.items()), len(CONFIG_PROBES)))
+        br.clauses = ["C12/reuse/configured/next-result-is-what-a-fresh-assembler-of-the-same-configuration-gives",
+                      "C12/reuse/configured/every-option-is-in-force-in-every-round"]
+        isa, ff, syntax, cs = ISAS["x64-att"]
+
+        def dump(res):
+            where = {}
+            for name, sec in res.sections.items():
+                for b in sec.blocks:
+                    where[id(b)] = (name, b.offset)
+
+            def node(n):
+                if id(n) in where:
+                    return where[id(n)]
+                if isinstance(n, gtirb.ProxyBlock):
+                    return "proxy" if n in res.proxies else "foreign proxy"
+                return "module" if getattr(n, "module", None) is not None else "FOREIGN"
+            secs = []
+            for name, sec in res.sections.items():
+                secs.append((name, bytes(sec.data).hex(), [(type(b).__name__, b.offset, b.size) for b in sec.blocks],
+                             sorted((k, type(v).__name__, v.symbol.name, v.offset) for k, v in sec.symbolic_expressions.items()),
+                             [(bool(p.is_implicit), sum(1 for _ in p.instructions.node_keys())) for p in sec.cfi_procedures]))
+            return (secs, sorted((s_.name, node(s_.referent), bool(s_.at_end)) for s_ in res.symbols),
+                    sorted(((node(e.source), node(e.target), e.label.type.name, bool(e.label.conditional)) for e in res.cfg), key=repr), len(res.proxies))
+
+        def use(a, seen, text):
+            """one round: -> ("raised", exception class) | ("ok", what assemble returned, diagnostics the caller's callback got, the result)"""
+            n0 = len(seen) if seen is not None else 0
+            try:
+                with warnings.catch_warnings():
+                    warnings.simplefilter("ignore")
+                    ok = a.assemble(text, syntax)
+                    res = a.finalize()
+            except Exception as e:       # noqa
+                return ("raised", type(e).__name__)
+            return ("ok", bool(ok), (len(seen) - n0) if seen is not None else None, dump(res))
+
+        def in_force(cfg, option, outcome):
+            """-> None or what is wrong: the option of the configuration that the probe text is about has its effect in this outcome"""
+            accepted = outcome[0] == "ok" and outcome[1]
+            if option == "trivially_unreachable":
+                if not accepted:
+                    return "the text was not accepted: %s" % (outcome[:2],)
+                (name, data, blocks, exprs, cfi) = outcome[3][0][0]
+                kind0 = blocks[0][0]
+                if cfg[option]:
+                    # the entry block is unreachable, only .byte, nothing jumps to it: data, and no control flow leaves a data block
+                    if kind0 != "DataBlock":
+                        return "entry block declared unreachable, .byte only, no edge into it: it is a %s" % kind0
+                    if any(src == (name, 0) for src, _, _, _ in outcome[3][2]):
+                        return "edges leave the data block at 0: %s" % [e for e in outcome[3][2] if e[0] == (name, 0)]
+                if not cfg[option] and kind0 != "CodeBlock":
+                    return "entry block of an executable section, not declared unreachable: it is a %s" % kind0
+                return None
+            if option == "temp_symbol_suffix":
+                names = [s_[0] for s_ in outcome[3][1]] if accepted else None
+                want = [".Ltmp" + (cfg[option] or "")]
+                return None if names == want else "symbols %s expected %s" % (names, want)
+            if option in ("allow_undef_symbols", "implicit_cfi_procedure", "ignore_symver_directives"):
+                # the text is acceptable exactly under the option; refused otherwise (raised, or -- when the caller's callback takes the
+                # diagnostics -- assemble() returns False and the callback got the error)
+                if accepted != bool(cfg[option]):
+                    return "%s=%s but the text was %s: %s" % (option, cfg[option], "accepted" if accepted else "refused", outcome[:3])
+                if not accepted and outcome[0] == "ok" and not outcome[2]:
+                    return "refused without an exception and without a diagnostic to the caller's callback"
+                if accepted and option == "allow_undef_symbols" and [s_[:2] for s_ in outcome[3][1]] != [("ghost", "proxy")]:
+                    return "undefined name allowed: symbols %s expected one 'ghost' on a proxy of the result" % (outcome[3][1],)
+                if accepted and option == "implicit_cfi_procedure" and [c[0] for c in outcome[3][0][0][4]] != [True]:
+                    return "CFI procedures of the text section (implicit?, directives) %s expected one implicit procedure" % (outcome[3][0][0][4],)
+                return None
+            return None
+
+        distinct = set()
+        for cfg in configurations():
+            shown = {k: v for k, v in cfg.items() if v not in (None, False)}
+            for option, probe in CONFIG_PROBES.items():
+                ir, m, modsym = mk_module(isa, ff)
+                a, seen = configured_assembler(m, cfg)
+                want = use(a, seen, probe)
+                br.cases += 1
+                distinct.add((tuple(sorted(shown.items())), option, 0))
+                bad = in_force(cfg, option, want)
+                if bad:
+                    br.failures.append({"clause": "C12/reuse/configured/every-option-is-in-force-in-every-round", "witness": {"configuration": shown, "earlier texts": [], "text": probe.splitlines()}, "detail": bad})
+                for hist in earlier:
+                    ir, m, modsym = mk_module(isa, ff)
+                    a, seen = configured_assembler(m, cfg)
+                    if not all(use(a, seen, t)[:2] == ("ok", True) for t in hist):
+                        continue          # an earlier text this configuration does not accept: not a history of successful use
+                    got = use(a, seen, probe)
+                    br.cases += 1
+                    distinct.add((tuple(sorted(shown.items())), option, hist))
+                    desc = {"configuration": shown, "earlier texts (each assembled and finalised)": [t.splitlines() for t in hist], "text": probe.splitlines()}
+                    if got != want:
+                        br.failures.append({"clause": "C12/reuse/configured/next-result-is-what-a-fresh-assembler-of-the-same-configuration-gives", "witness": desc,
+                                            "detail": "reused %s fresh %s" % (str(got)[:220], str(want)[:220])})
+                    bad = in_force(cfg, option, got)
+                    if bad:
+                        br.failures.append({"clause": "C12/reuse/configured/every-option-is-in-force-in-every-round", "witness": desc, "detail": bad})
+                    if len(br.samples) < 2 and shown and option in shown:
+                        br.samples.append(desc)
+        br.nontrivial = len(distinct)
+        return br
+    return run
+
+
 def c12_bounded(tier, seed):
     def run():
         logging.getLogger("gtirb_rewriting").setLevel(logging.CRITICAL)
@@ -795,6 +995,8 @@ def jobs_c12(tier="quick", seed=0):
     yield Job("C12/precreate_label", precreate_label_harness, kind="E", func="gtirb_rewriting.assembler.assembler:_SymbolCreator._precreate_label", expect_cover=("enumerated",))
     yield Job("C12/symbol_lookup", symbol_lookup_harness, kind="E", func="gtirb_rewriting.assembler.assembler:_Streamer._symbol_lookup/_resolve_symbol", expect_cover=("enumerated",))
     yield Job("C12/assembler-reuse-bounded", assembler_reuse(tier, seed), kind="B", func="gtirb_rewriting.assembler.assembler:Assembler.finalize")
+    yield Job("C12/finalize_keeps_configuration", finalize_keeps_configuration_harness, kind="E", func="gtirb_rewriting.assembler.assembler:Assembler.finalize", expect_cover=("enumerated",))
+    yield Job("C12/configured-assembler-reuse-bounded", configured_reuse(tier, seed), kind="B", func="gtirb_rewriting.assembler.assembler:Assembler.finalize")
     yield Job("C12/operand-forms-bounded", operand_forms(tier, seed), kind="B", func="gtirb_rewriting.assembler.assembler:_Streamer._fixup_to_symbolic_operand/_mcexpr_to_symbolic_operand")
     yield Job("C12/assembler-vs-capstone-bounded", c12_bounded(tier, seed), kind="B", func="gtirb_rewriting.assembler.assembler:Assembler")
 
